@@ -15,6 +15,11 @@
 //	                    queries nested at the file-system seams inside flushes, reopen and crash images
 //	compact_test.go     part (b): per-case name universes (names of mixed length / common prefixes),
 //	                    compaction of the dictionary / index kv families as a history operation
+//	seqcache_test.go    part (b): the per-metric series id sequence cache entry disappears (operation of
+//	                    the histories, also nested inside flushes), then new series of that metric
+//	volume_test.go      part (b), size class: histories in which ONE dictionary bucket receives 10^4..10^5
+//	                    new names per flush cycle (around the 32767-key flush block / 65535-key
+//	                    compaction block), same operations and oracles as history_test.go
 //	regression_test.go  plain reproductions of the defects found
 package c09
 
@@ -475,6 +480,15 @@ func (x *ident) set(what string, id uint32) error {
 	return nil
 }
 
+// setf = set with a lazily formatted description (the hot loops of the oracle run it per name).
+func (x *ident) setf(id uint32, format string, args ...any) error {
+	if x.has && x.id != id {
+		return x.set(fmt.Sprintf(format, args...), id)
+	}
+	x.id, x.has = id, true
+	return nil
+}
+
 // observe folds one creator answer into the model.
 func (m *model) observe(o obs) error {
 	k := mkey{o.NS, o.Name}
@@ -488,11 +502,11 @@ func (m *model) observe(o obs) error {
 			f = &ident{seq: m.seq}
 			mm.fields[o.Key] = f
 		}
-		return f.set(fmt.Sprintf("field %s.%s", k, o.Key), o.ID)
+		return f.setf(o.ID, "field %s.%s", k, o.Key)
 	case "tagkey":
-		return mm.tagKey(o.Key, m.seq).set(fmt.Sprintf("tag key %s[%s]", k, o.Key), o.ID)
+		return mm.tagKey(o.Key, m.seq).setf(o.ID, "tag key %s[%s]", k, o.Key)
 	case "tagval":
-		return mm.tagKey(o.Key, m.seq).value(o.Value, m.seq).set(fmt.Sprintf("tag value %s[%s=%s]", k, o.Key, o.Value), o.ID)
+		return mm.tagKey(o.Key, m.seq).value(o.Value, m.seq).setf(o.ID, "tag value %s[%s=%s]", k, o.Key, o.Value)
 	case "series":
 		return errors.New("harness: series observations go through observeSeries")
 	}
@@ -527,7 +541,7 @@ func (m *model) observeSeriesOpt(i int, r rowSpec, id uint32, tagNames bool) err
 			mm.tagKey(t.K, m.seq).value(t.V, m.seq)
 		}
 	}
-	return s.set(fmt.Sprintf("series idx%d %s{%s}", i, k, c), id)
+	return s.setf(id, "series idx%d %s{%s}", i, k, c)
 }
 
 func (m *model) observeAll(r rowSpec, os []obs) error {
@@ -573,29 +587,45 @@ func sortedKeys[V any](m map[string]V) []string {
 // index (tag key id) and the inverted index (tag value id) by the bare id; field ids are scoped
 // by metric, series ids by (index database, metric).
 func (m *model) checkInjective() error {
-	owner := map[string]map[uint32]string{}
-	claim := func(scope string, id uint32, name string) error {
-		s := owner[scope]
+	// the owner of an id is kept as (format, arguments) and rendered only for a report: this runs
+	// per name of the model after every step
+	type owner struct {
+		format  string
+		a, b, c string
+	}
+	render := func(o owner) string {
+		switch strings.Count(o.format, "%s") {
+		case 1:
+			return fmt.Sprintf(o.format, o.a)
+		case 2:
+			return fmt.Sprintf(o.format, o.a, o.b)
+		}
+		return fmt.Sprintf(o.format, o.a, o.b, o.c)
+	}
+	owners := map[string]map[uint32]owner{}
+	claim := func(scope string, id uint32, name owner) error {
+		s := owners[scope]
 		if s == nil {
-			s = map[uint32]string{}
-			owner[scope] = s
+			s = map[uint32]owner{}
+			owners[scope] = s
 		}
 		if other, ok := s[id]; ok && other != name {
-			return fmt.Errorf("NOT INJECTIVE: %s and %s share id %d (scope %s)", other, name, id, scope)
+			return fmt.Errorf("NOT INJECTIVE: %s and %s share id %d (scope %s)", render(other), render(name), id, scope)
 		}
 		s[id] = name
 		return nil
 	}
 	for _, k := range sortedMetricKeys(m.metrics) {
 		mm := m.metrics[k]
+		ks := k.String()
 		if mm.has {
-			if err := claim("metric", mm.id, "metric "+k.String()); err != nil {
+			if err := claim("metric", mm.id, owner{format: "metric %s", a: ks}); err != nil {
 				return err
 			}
 		}
 		for _, f := range sortedKeys(mm.fields) {
 			if x := mm.fields[f]; x.has {
-				if err := claim("field of "+k.String(), x.id, "field "+f); err != nil {
+				if err := claim("field of "+ks, x.id, owner{format: "field %s", a: f}); err != nil {
 					return err
 				}
 			}
@@ -603,13 +633,13 @@ func (m *model) checkInjective() error {
 		for _, tk := range sortedKeys(mm.tagKeys) {
 			t := mm.tagKeys[tk]
 			if t.has {
-				if err := claim("tagkey", t.id, fmt.Sprintf("tag key %s[%s]", k, tk)); err != nil {
+				if err := claim("tagkey", t.id, owner{format: "tag key %s[%s]", a: ks, b: tk}); err != nil {
 					return err
 				}
 			}
 			for _, v := range sortedKeys(t.values) {
 				if x := t.values[v]; x.has {
-					if err := claim("tagval", x.id, fmt.Sprintf("tag value %s[%s=%s]", k, tk, v)); err != nil {
+					if err := claim("tagval", x.id, owner{format: "tag value %s[%s=%s]", a: ks, b: tk, c: v}); err != nil {
 						return err
 					}
 				}
@@ -619,9 +649,13 @@ func (m *model) checkInjective() error {
 	for i := range m.series {
 		for _, k := range sortedMetricKeys(m.metrics) {
 			byTags := m.series[i][k]
+			if len(byTags) == 0 {
+				continue
+			}
+			scope := fmt.Sprintf("series of idx%d %s", i, k)
 			for _, c := range sortedKeys(byTags) {
 				if s := byTags[c]; s.has {
-					if err := claim(fmt.Sprintf("series of idx%d %s", i, k), s.id, "series {"+c+"}"); err != nil {
+					if err := claim(scope, s.id, owner{format: "series {%s}", a: c}); err != nil {
 						return err
 					}
 				}
@@ -676,9 +710,29 @@ func tagValuesOf(n *node, kid uint32) (map[string]uint32, error) {
 	return out, nil
 }
 
+// forwardPerSeriesLimit: up to this many series of a tag key the forward index is read series by
+// series (one grouping scan per series). A scan costs time proportional to ALL series of the tag key
+// in the 65536-block, so beyond it the hinted read below is used.
+const forwardPerSeriesLimit = 512
+
 // forwardOf returns series id -> tag value ids of one tag key of one index database (the
-// forward index as group-by reads it).
-func forwardOf(d index.MetricIndexDatabase, kid uint32) (map[uint32][]uint32, *roaring.Bitmap, error) {
+// forward index as group-by reads it: GetSeriesIDsForTag, GetGroupingContext, ScanTagValueIDs).
+//
+// hint (may be nil) = series id -> the tag value id the caller expects. It only makes the read of a
+// big tag key affordable and never decides an answer: ScanTagValueIDs(block, C) returns the union
+// of the tag value ids of the series in C, so for a set C of hinted series the harness asks for
+// C itself and, for every bit b of the expected ids, for the halves of C whose expected id has b
+// set / clear. If the real mapping of some series of C differs from its hint in any way (other id,
+// one more id from a second part of the index), the two ids differ in a bit and the union of the
+// half that must not contain that bit does - or the id is outside the expected set of C. So
+// "all unions equal the expected ones" <=> every series of C maps to exactly its hinted id, and
+// those entries are returned as such. A set that fails is halved until single series are left,
+// which are read exactly (the first 16; for the rest of a failing set every series gets the union
+// of its set, i.e. a failing answer stays a failing answer). Series without a hint are read one
+// by one - the first 512 of them; further ones are NOT in the returned map (the returned bitmap
+// always lists every series of the tag key). Callers only judge entries of series they have an
+// expectation for, and those are the hinted ones.
+func forwardOf(d index.MetricIndexDatabase, kid uint32, hint map[uint32]uint32) (map[uint32][]uint32, *roaring.Bitmap, error) {
 	sids, err := d.GetSeriesIDsForTag(tag.KeyID(kid))
 	if err != nil {
 		return nil, nil, err
@@ -692,15 +746,130 @@ func forwardOf(d index.MetricIndexDatabase, kid uint32) (map[uint32][]uint32, *r
 	if err := d.GetGroupingContext(ctx); err != nil {
 		return nil, nil, err
 	}
+	// scan = tag value ids of a set of series of one 65536-block
+	scan := func(hk uint16, series []uint32) []uint32 {
+		c := roaring.BitmapOf(series...)
+		vals := ctx.GroupingContext.ScanTagValueIDs(hk, c.GetContainer(hk))
+		return vals[0].ToArray()
+	}
+	if hint == nil || sids.GetCardinality() <= forwardPerSeriesLimit {
+		it := sids.Iterator()
+		for it.HasNext() {
+			s := it.Next()
+			out[s] = scan(uint16(s>>16), []uint32{s})
+		}
+		return out, sids, nil
+	}
+	byBlock := map[uint16][]uint32{}
+	var blocks []uint16
+	unhinted := 0
 	it := sids.Iterator()
 	for it.HasNext() {
 		s := it.Next()
-		one := roaring.BitmapOf(s)
 		hk := uint16(s >> 16)
-		vals := ctx.GroupingContext.ScanTagValueIDs(hk, one.GetContainer(hk))
-		out[s] = vals[0].ToArray()
+		if _, ok := hint[s]; !ok {
+			if unhinted < forwardPerSeriesLimit {
+				unhinted++
+				out[s] = scan(hk, []uint32{s})
+			}
+			continue
+		}
+		if byBlock[hk] == nil {
+			blocks = append(blocks, hk)
+		}
+		byBlock[hk] = append(byBlock[hk], s)
+	}
+	expected := func(series []uint32) []uint32 {
+		return roaring.BitmapOf(mapIDs(series, hint)...).ToArray()
+	}
+	same := func(a, b []uint32) bool {
+		if len(a) != len(b) {
+			return false
+		}
+		for i := range a {
+			if a[i] != b[i] {
+				return false
+			}
+		}
+		return true
+	}
+	exact := 0
+	var settle func(hk uint16, series []uint32)
+	settle = func(hk uint16, series []uint32) {
+		union := scan(hk, series)
+		want := expected(series)
+		ok := same(union, want)
+		for b := 0; ok && len(want) > 0 && want[len(want)-1]>>b != 0; b++ {
+			var set, clear []uint32
+			for _, s := range series {
+				if hint[s]>>b&1 == 1 {
+					set = append(set, s)
+				} else {
+					clear = append(clear, s)
+				}
+			}
+			if len(set) == 0 || len(clear) == 0 {
+				continue
+			}
+			ok = same(scan(hk, set), expected(set)) && same(scan(hk, clear), expected(clear))
+		}
+		switch {
+		case ok:
+			for _, s := range series {
+				out[s] = []uint32{hint[s]}
+			}
+		case len(series) == 1:
+			out[series[0]] = union
+			exact++
+		case exact >= 16:
+			for _, s := range series {
+				out[s] = union
+			}
+		default:
+			settle(hk, series[:len(series)/2])
+			settle(hk, series[len(series)/2:])
+		}
+	}
+	for _, hk := range blocks {
+		settle(hk, byBlock[hk])
 	}
 	return out, sids, nil
+}
+
+func mapIDs(series []uint32, hint map[uint32]uint32) []uint32 {
+	out := make([]uint32, len(series))
+	for i, s := range series {
+		out[i] = hint[s]
+	}
+	return out
+}
+
+// forwardHint = what the model expects the forward index of tag key tk of metric k in index
+// database i to say (series id -> tag value id), for the series whose ids and value ids are known.
+// nil while the metric has few series there (the plain read is used then).
+func (m *model) forwardHint(i int, k mkey, tk string) map[uint32]uint32 {
+	if i >= len(m.series) || len(m.series[i][k]) <= forwardPerSeriesLimit {
+		return nil
+	}
+	mm := m.metrics[k]
+	if mm == nil || mm.tagKeys[tk] == nil {
+		return nil
+	}
+	t := mm.tagKeys[tk]
+	hint := map[uint32]uint32{}
+	for _, s := range m.series[i][k] {
+		if !s.has {
+			continue
+		}
+		for _, kv := range s.tags {
+			if kv.K == tk {
+				if x := t.values[kv.V]; x != nil && x.has {
+					hint[s.id] = x.id
+				}
+			}
+		}
+	}
+	return hint
 }
 
 func bitmapString(b *roaring.Bitmap) string {
@@ -755,7 +924,7 @@ func resolve(n *node, m *model, exact bool) error {
 				}
 				return fmt.Errorf("LOOKUP DISAGREES: schema of %s has field %q (id %d) that nobody created", k, name, f.ID)
 			}
-			if err := x.set(fmt.Sprintf("field %s.%s (GetSchema)", k, name), uint32(f.ID)); err != nil {
+			if err := x.setf(uint32(f.ID), "field %s.%s (GetSchema)", k, name); err != nil {
 				return err
 			}
 		}
@@ -777,7 +946,7 @@ func resolve(n *node, m *model, exact bool) error {
 				}
 				return fmt.Errorf("LOOKUP DISAGREES: schema of %s has tag key %q (id %d) that nobody created", k, t.Key, t.ID)
 			}
-			if err := x.set(fmt.Sprintf("tag key %s[%s] (GetSchema)", k, t.Key), uint32(t.ID)); err != nil {
+			if err := x.setf(uint32(t.ID), "tag key %s[%s] (GetSchema)", k, t.Key); err != nil {
 				return err
 			}
 		}
@@ -798,7 +967,7 @@ func resolve(n *node, m *model, exact bool) error {
 					}
 					continue
 				}
-				if err := x.set(fmt.Sprintf("tag value %s[%s=%s] (CollectTagValues)", k, tk, v), dict[v]); err != nil {
+				if err := x.setf(dict[v], "tag value %s[%s=%s] (CollectTagValues)", k, tk, v); err != nil {
 					return err
 				}
 			}
@@ -872,7 +1041,7 @@ func checkIndex(n *node, m *model, exact bool) error {
 				if wantKey == nil {
 					wantKey = roaring.New()
 				}
-				fwd, sids, err := forwardOf(d, t.id)
+				fwd, sids, err := forwardOf(d, t.id, m.forwardHint(i, k, tk))
 				if err != nil && !isNotFound(err) {
 					return fmt.Errorf("forward index (idx%d %s[%s]): %w", i, k, tk, err)
 				}
@@ -964,14 +1133,14 @@ func (m *model) merge(o *model) error {
 			ot := om.tagKeys[tk]
 			t := mm.tagKey(tk, m.seq)
 			if ot.has {
-				if err := t.set(fmt.Sprintf("tag key %s[%s]", k, tk), ot.id); err != nil {
+				if err := t.setf(ot.id, "tag key %s[%s]", k, tk); err != nil {
 					return err
 				}
 			}
 			for _, v := range sortedKeys(ot.values) {
 				x := t.value(v, m.seq)
 				if ov := ot.values[v]; ov.has {
-					if err := x.set(fmt.Sprintf("tag value %s[%s=%s]", k, tk, v), ov.id); err != nil {
+					if err := x.setf(ov.id, "tag value %s[%s=%s]", k, tk, v); err != nil {
 						return err
 					}
 				}
